@@ -3,9 +3,9 @@
 //! unique state counts.  The runner compares them with the number of canonical states the
 //! real-code search visited.  Never the deciding step: a mismatch is a machinery failure.
 //!
-//! usage: xcheck <limit> <wide:0|1>
+//! usage: xcheck <limit> <mode: 0 default | 1 three endpoints, one path | 2 three paths>
 
-use refmodel::subject::{alphabet, RefSubject, SubjectAct};
+use refmodel::subject::{alphabet_mode, RefSubject, SubjectAct};
 use stateright::{Checker, Model, Property};
 
 struct ObserveModel {
@@ -49,16 +49,16 @@ impl Model for ObserveModel {
 fn main() {
     let args: Vec<String> = std::env::args().collect();
     let limit: u64 = args.get(1).and_then(|x| x.parse().ok()).unwrap_or(0);
-    let wide = args.get(2).map(|x| x == "1").unwrap_or(false);
+    let mode: u8 = args.get(2).and_then(|x| x.parse().ok()).unwrap_or(0);
     let threads = std::thread::available_parallelism().map(|n| n.get()).unwrap_or(4);
-    let bfs = ObserveModel { limit, acts: alphabet(wide) }.checker().threads(threads).spawn_bfs().join();
-    let dfs = ObserveModel { limit, acts: alphabet(wide) }.checker().threads(threads).spawn_dfs().join();
+    let bfs = ObserveModel { limit, acts: alphabet_mode(mode) }.checker().threads(threads).spawn_bfs().join();
+    let dfs = ObserveModel { limit, acts: alphabet_mode(mode) }.checker().threads(threads).spawn_dfs().join();
     let ok = bfs.discoveries().is_empty() && dfs.discoveries().is_empty();
     println!(
-        "{{\"limit\":{},\"wide\":{},\"actions\":{},\"bfs_unique_states\":{},\"dfs_unique_states\":{},\"properties_hold\":{}}}",
+        "{{\"limit\":{},\"mode\":{},\"actions\":{},\"bfs_unique_states\":{},\"dfs_unique_states\":{},\"properties_hold\":{}}}",
         limit,
-        wide,
-        alphabet(wide).len(),
+        mode,
+        alphabet_mode(mode).len(),
         bfs.unique_state_count(),
         dfs.unique_state_count(),
         ok
